@@ -19,6 +19,12 @@ import (
 func rebuildRule(c *core.Check, pk *packages.Package, node *types.Interface, rule string, reviewed map[string]string) int {
 	info := pk.TypesInfo
 	n := 0
+	docs := map[*types.Var]string{}
+	for _, dep := range pk.Imports {
+		if strings.HasSuffix(dep.PkgPath, "/ast") {
+			docs = fieldDocs(dep)
+		}
+	}
 	for _, fd := range core.AllFuncDecls(pk) {
 		if fd.Body == nil {
 			continue
@@ -64,7 +70,16 @@ func rebuildRule(c *core.Check, pk *packages.Package, node *types.Interface, rul
 			var missing []string
 			for i := 0; i < st.NumFields(); i++ {
 				f := st.Field(i)
-				if !syntaxField(f, node) || f.Type().String() == "github.com/goplus/xgo/token.Pos" || f.Name() == "Doc" || f.Name() == "Comment" || f.Name() == "Obj" {
+				if f.Name() == "Doc" || f.Name() == "Comment" || f.Name() == "Obj" {
+					continue
+				}
+				if f.Type().String() == "github.com/goplus/xgo/token.Pos" {
+					// a bare position is not required — except where the position's validity IS the syntax: `...` present or
+					// not, command style or not
+					if !(f.Name() == "Ellipsis" || f.Name() == "NoParenEnd" || strings.Contains(docs[f], "NoPos")) {
+						continue
+					}
+				} else if !syntaxField(f, node) {
 					continue
 				}
 				if !set[f.Name()] {
